@@ -99,7 +99,20 @@ pub fn to_coq(lines: &[String]) -> String {
             ),
             ("N", 5) => {
                 if nodes.is_empty() {
-                    nodes_pre = sn.clone().unwrap_or_default();
+                    // the hook logs this line after the node was pushed onto pending_trivia (and
+                    // before its pending diagnostic is): the state when the op began had one less
+                    nodes_pre = line
+                        .split_once('|')
+                        .map(|(_, s)| {
+                            let mut v: Vec<u64> = s.split_whitespace().filter_map(|x| x.parse().ok()).collect();
+                            if v.len() == 6 && v[3] > 0 {
+                                v[3] -= 1;
+                                format!("(mkSnap {})", v.iter().map(|x| x.to_string()).collect::<Vec<_>>().join(" "))
+                            } else {
+                                "MALFORMED_SNAP".into()
+                            }
+                        })
+                        .unwrap_or_else(|| "MISSING_SNAP".into());
                 }
                 nodes.push(format!("({}, {}, {}, {})", f[1], f[2], f[3], f[4]));
             }
